@@ -21,6 +21,16 @@ THEOREMS = [_NS + t for t in (
     # a leading range `b ... c` of decimal 'i' integers followed by proved values (checker, scanner, denotation)
     "range_first_partial", "reads_range_first", "cells_range_first", "range_first_lay", "scanArgVal_range0",
     "skipNext_range0", "deltaUnity11",
+    # ranges `b ... c` of decimal 'i' integers anywhere at top level: first, behind a scalar (an 'i' integer a gives
+    # the step b - a), behind nx<scalar>, behind another range (its right end is the neighbour) — class `Ranged`
+    "checker_scanner_agree_ranges_partial", "scan_denotes_ranges_partial",
+    "whitespace_comment_invariance_ranges_partial", "reads_ranged", "cells_ranged", "Proved.ranged",
+    "layR_ranged", "denoteElems_ranged", "countPrintedArgVals_layR", "scanArgVals_layR", "scanLoop_layR",
+    "countLoop_layR", "Prov.scanRange", "Prov.skipRange", "scanArgVal_rangeB", "scanArgVal_rangeC",
+    "skipNext_rangeL", "deltaStep11", "RangeOK.delta_cell", "ValOK.nomult", "exRanged_ranged",
+    # hypotheses the class needs: the width c - b must be an int32_t (the specification only bounds the number of
+    # steps); model artefact: recursion bound of the checker's look-back at a deeply nested left neighbour
+    "wide_range_counterexample", "deep_neighbour_model_fuel",
     # known finding C11-K1: the full statement fails on "077"; the proved part lies outside the trigger
     "scan_denotes_counterexample", "proved_not_K1",
     # known finding C11-K2: the full statement fails on "42%c"; the proved part lies outside the trigger
@@ -73,11 +83,25 @@ ASSUMPTIONS = [
     "values of one type in a row); in addition (range_first_partial): a sentence that STARTS with a range b ... c of two "
     "different decimal 'i' integers (at least one white-space character in front of the dots, |c-b|+1 < 2^31), followed by "
     "any proved values: it denotes |c-b|+1 values from b in steps of sgn(c-b), and checker and scanner agree on exactly "
-    "these cells",
+    "these cells; and (class Ranged: checker_scanner_agree_ranges_partial, scan_denotes_ranges_partial, "
+    "whitespace_comment_invariance_ranges_partial) the first three clauses for sentences of any length in which ranges "
+    "b ... c of two decimal 'i' integers (unsuffixed, at least one white-space character in front of the dots) stand "
+    "anywhere at top level among values of the proved class, each range being the first value or standing behind a "
+    "scalar value of any type in a proved spelling, behind nx<scalar>, or behind another such range: the step is b - a when the value a to "
+    "the left is an 'i' integer different from b (behind a range: its right end c'), else sgn(c-b); hypothesis "
+    "RangeOK: the step is an int32_t that reaches c from b in 1 .. 2^31-2 steps and the width c - b is an int32_t",
+    "the width hypothesis of RangeOK is necessary (wide_range_counterexample): '-2100000000 -1500000000 ... 900000000' "
+    "denotes five values in the manual's reading (the specification's stepsOf only bounds the number of steps), "
+    "delta_from_arg_vals computes c - b in int (signed overflow in C, wrapped in the model) and the checker rejects the "
+    "text; such widths are not generated",
+    "model artefact (deep_neighbour_model_fuel): C11.ellipsisTail re-skips the previous argument with the recursion "
+    "bound of the current position (length of the rest of the text + 1); a left neighbour that is an array nested "
+    "deeper than that ('[[[[[[[[1]]]]]]]] 2...5') makes the MODEL of the checker stop with Err.fuel where the C code has "
+    "no bound; the generator nests at most 4 deep and the proved class excludes arrays as left neighbours of a range",
     "NOT proved, covered by exact model/implementation correspondence and the oracle on the implementation only: octal "
     "integers, hexadecimal integers with a suffix or of type 'h', floats and doubles in every notation (point, exponent, suffix, hex, exact value in "
-    "parentheses), upper-case colours, other spacings inside MIDI, ranges with a left neighbour 'a b ... c', ranges that "
-    "are not the first value, ranges inside arrays, ranges of c/h/f/d or in other spellings, arrays with an open end, "
+    "parentheses), upper-case colours, other spacings inside MIDI, ranges directly behind an array or nx[array], ranges "
+    "inside arrays, ranges of c/h/f/d or in other spellings (hex, i suffix), arrays with an open end, "
     "comments directly behind a value; print_scan_fixpoint for arrays, nxA and compressed runs",
     "known finding C11-K1: an unsuffixed integer literal with a leading zero is read as decimal although the manual "
     "promises C99 (octal) reading and the suffixed forms are read as octal; the model mirrors it, Lean proves the "
@@ -114,16 +138,20 @@ LEVEL_TEXT = ("Lean theorems over an executable model of checker, scanner and pr
               "comment lines: the checker's count equals the number of cells the scanner writes, the whole text is consumed, "
               "the cells are the denotation, and two layouts scan to the same cells (induction over the token list and the "
               "nesting, no size bound); for sentences of scalars print-then-scan is the identity on the scanned cells; "
-              "of the ranges only the case 'b ... c of decimal i integers as the first value of the sentence' is proved. "
+              "of the ranges those of decimal i integers at top level are proved: 'b ... c' as the first value, 'a b ... c' with the "
+              "step b - a taken from the scalar a to the left, ranges behind values of other types, behind nx<scalar> and "
+              "behind other ranges (the width c - b must be an int32_t, which the code needs and the manual does not say). "
               "'Every layout' means: every layout in which a comment behind a value is preceded by white space. "
-              "The remaining constructs (octal and suffixed hex integers, floats, ranges with a left neighbour / inside arrays / "
-              "of other types, open-ended arrays, comments directly behind a value) are checked by exact "
+              "The remaining constructs (octal and suffixed hex integers, floats, ranges directly behind an array / inside arrays / "
+              "of other types or spellings, open-ended arrays, comments directly behind a value) are checked by exact "
               "model/implementation correspondence on generated sentences and by an independent reference reader of the "
               "manual evaluated on the implementation's output, not proved. Two known findings with proved counterexamples "
               "(C11-K1 octal read as decimal; C11-K2 a numeric literal directly followed by '%' is rejected)")
-LEVEL_NOTE = ("partial: scalars in the proved spellings, arrays, nxA and a leading decimal integer range under all layouts without a "
-              "comment directly behind a value are proved; hex/octal/float spellings, all other ranges, open-ended arrays and "
-              "adjacent comments are correspondence + oracle only")
+LEVEL_NOTE = ("partial: scalars in the proved spellings, arrays, nxA and top-level ranges of decimal i integers (first value, or "
+              "behind a scalar / nx<scalar> / another range: 'a b ... c' with the step from a and b) under all layouts without a "
+              "comment directly behind a value are proved; octal / suffixed-hex / float spellings, ranges of c/h/f/d or in other "
+              "spellings, ranges directly behind an array, ranges inside arrays, open-ended arrays and adjacent comments are "
+              "correspondence + oracle only")
 
 # ------------------------------------------------------------------------------------
 # exact binary floating point on bit patterns (independent of the Lean model)
